@@ -204,7 +204,7 @@ PROPS['C02'] = {
                    'resolution / lost the subscribe CAS to the resolver); a run in which the parked or the lost-race class is empty is inconclusive. '
                    'Second scenario: the resolver is the completion of an async<T> coroutine finished by another thread.'),
     'level_note': 'A stall right after a successful publish (aw_subchk_post) plus ASan is the detector for touching the awaiter after publishing it.',
-    'rule': _FUT_RULE + ' Second scenario future_async_mt: outer future of an async<T> coroutine that is suspended on a gate future opened by thread 0.',
+    'rule': _FUT_RULE + ' Second scenario future_async_mt: outer future of an async<T> coroutine that is suspended on a gate future opened by thread 0. Third scenario frame_owned_parties: callback awaiter and blocked thread owned by the frame of the finishing coroutine (release must precede frame teardown).',
     'min_nontrivial': [200, 2000],
     'require_classes': ['future_mt:waiter_parked_before_resolution', 'future_mt:waiter_lost_subscribe_race_to_ready', 'future_async_mt:waiter_parked_before_resolution',
                         'future_async_mt:waiter_lost_subscribe_race_to_ready'],
@@ -296,7 +296,7 @@ PROPS['C04'] = {
                    'exactly once), start(promise) on a claimed promise reports false and leaves the coroutine unstarted.'),
     'level_note': 'Frame destruction is observed through RAII guards living in the frame (double destruction -> liveness cookie / ASan; leak -> counters / LSan).',
     'rule': ('case = one program; every program is non-trivial (it creates at least one coroutine); distinct = distinct (T, start mode, completion, depth, '
-             'throwing level, finishing thread).'),
+             'throwing level, finishing thread). Third scenario frame_owned_parties: the bound future / a callback awaiter / a thread blocked on the own result is kept alive only by the coroutine frame (argument), so delivery must precede frame destruction.'),
     'min_nontrivial': [150, 1000],
     'require_classes': ['async_start_race:coroutine_won_the_promise', 'async_start_race:competing_call_won_the_promise'],
     'single_thread_scenarios': ('async_programs', 'frame_owned_parties'),
@@ -347,7 +347,7 @@ PROPS['C11'] = {
                    'statement and is not driven (the harness waits for that stop() to return).'),
     'rule': ('case = one round (fresh pool, 1-3 workers, 1-2 submitters x 1-3 jobs, stop origin and delay drawn, stall plan over pool hook sites incl. '
              'worker threads); non-trivial = a stop() raced with the submissions (not destructor-only); distinct = distinct (workers, stop origin, job '
-             'kinds, number executed, number cancelled).'),
+             'kinds, number executed, number cancelled). Second scenario pool_nested: a job on the outer pool creates, uses and stops an inner pool (stop(), destructor, stop() from the inner worker); follow-up jobs on the live outer pool must be executed on its workers.'),
     'min_nontrivial': [100, 1000],
     'require_classes': ['pool_mt:jobs_executed', 'pool_mt:jobs_cancelled', 'pool_mt:stop_origin_pool_worker', 'pool_mt:rounds_with_both_executed_and_cancelled'],
     'single_thread_scenarios': ('pool_nested',),
